@@ -703,6 +703,7 @@ impl RustGenerator {
             }
             Value::Constructor(_, _, ty) => Ok(ty.word_size() as usize),
             Value::None => Ok(0),
+            Value::UpValue(_) => Err("an upvalue index is not a value of the function".to_string()),
         }
     }
 
@@ -1032,8 +1033,19 @@ impl RustGenerator {
 
                 writer.line("let mut closure_upvalues = Vec::new();")?;
                 writer.line("let mut closure_indirect = Vec::new();")?;
-                for upvalue in &closure_func.upindexes {
+                for (upvalue, _) in &closure_func.upindexes {
                     match upvalue.as_ref() {
+                        Value::UpValue(index) => {
+                            // A variable of a function further out: the new closure refers to it
+                            // the way the closure being executed does.
+                            writer.line("let closure_handle = self.get_current_closure().ok_or_else(|| \"missing closure context for MakeClosure\".to_string())?;")?;
+                            writer.line(format!(
+                                "closure_upvalues.push(self.closures.get(closure_handle)?.upvalues[{index}usize]);"
+                            ))?;
+                            writer.line(format!(
+                                "closure_indirect.push(self.closures.get(closure_handle)?.indirect[{index}usize]);"
+                            ))?;
+                        }
                         Value::Register(reg) => {
                             if let Some(alloc_ty) = self.resolve_register_alloc_type(func, *reg) {
                                 let alloc_size = alloc_ty.word_size() as usize;
